@@ -10,6 +10,10 @@ Inductive cres (tmpl : Type) := COk (t : tmpl) | CErr (code : Z).
 Arguments COk {tmpl} t.
 Arguments CErr {tmpl} code.
 
+(* what is being compiled: a template under a template_config (whitespace/syntax settings), an
+   expression (compile_expression), or a template parsed for analysis (undeclared_variables) *)
+Inductive cmode := MTemplate (cfg : Z) | MExpr | MAnalysis.
+
 (* result of the loader closure: Ok(None) / Ok(Some(source)) / Err(e) *)
 Inductive lres := LMissing | LFound (x : src) | LFail (code : Z).
 
@@ -25,6 +29,7 @@ Inductive sop :=
 | ORemove (n : name)                  (* remove_template *)
 | OClear                              (* clear_templates *)
 | OSetLoader (l : Z)                  (* set_loader; [l] identifies the closure *)
+| OSetConfig (c : Z)                  (* set_trim_blocks / set_keep_trailing_newline / set_syntax ...: the template_config *)
 | OGet (n : name) (now : Z).          (* get_template at world time [now] *)
 
 Inductive sout (tmpl : Type) :=
@@ -53,6 +58,11 @@ Inductive wop :=
 | WRegRemove (k : rk) (nm : Z)        (* remove_filter / remove_test / remove_global *)
 | WClone                              (* other := clone of current (continuing on either copy) *)
 | WSwap                               (* continue on the other environment *)
-| WRenderStr (x : src)                (* one-off render_named_str: compile + render, nothing stored *)
+| WAdhoc (how : Z) (n : name) (x : src)
+                                      (* an ad-hoc entry point given a source (and maybe a name that collides with a
+                                         stored or loader-served template): how = 0 render_named_str, 1 render_str,
+                                         2 template_from_named_str + render, 3 template_from_str + render,
+                                         4 compile_expression + eval, 5 compile_expression_owned + eval,
+                                         otherwise template_from_named_str + undeclared_variables *)
 | WRenderBadCtx (n : name) (now : Z) (panics : bool).
                                       (* get_template + render with a context whose Serialize impl fails / panics *)
